@@ -90,6 +90,7 @@ class DryRunScan:
         self.process: T.List[T.Tuple[str, str]] = []
         self.optin: T.List[str] = []
         mod = m.mod
+        self.appliers = _guarded_appliers(m)
         for name, fn in m.inst.items():
             refs = U.effect_refs(mod, fn, local_mutating=set(m.mut), strict_meson=True)
             if not refs:
@@ -108,6 +109,7 @@ class DryRunScan:
                     # ExecutableSerialisation.dry_run: the script itself asked to be run in dry-run mode (documented feature)
                     facts[f'{r.call.args[0].id}.dry_run'] = False
                     self.optin.append(f'Installer.{name}: `{r.call.args[0].id}.dry_run` (script opted in) assumed false')
+            facts.update(_predicate_facts(m, lambda ps: {'self.dry_run': True}, []))
             reach = U.feasible_reach(cfg, [cfg.entry], facts, alias)
             for r in refs:
                 nodes = U.node_of(cfg, r.node)
@@ -119,7 +121,44 @@ class DryRunScan:
                 fw = ''
                 if r.call is not None:
                     fw = 'varargs' if U.forwards_varargs(fn, r.call) else ('params' if U.forwards_params(fn, r.call) else '')
+                else:
+                    # the primitive handed, as a value, to a helper that applies its parameter only when not dry-run (callee summary)
+                    ap = self._applied_by(fn, r)
+                    if ap is not None:
+                        guarded, fw = True, ap
+                    elif not guarded and self._passed_to_unknown_method(m, fn, r):
+                        raise Undecided(f'Installer.{name}: `{r.name}` is passed as a value to a method whose use of it the rule cannot summarise')
                 self.sites.append(Site(name, r, guarded, fw))
+
+    def _enclosing_call(self, fn: U.FuncNode, r: Ref) -> T.Optional[T.Tuple[ast.Call, int]]:
+        for c in calls_in(fn):
+            for i, a in enumerate(c.args):
+                if a is r.node:
+                    return c, i
+        return None
+
+    def _applied_by(self, fn: U.FuncNode, r: Ref) -> T.Optional[str]:
+        hit = self._enclosing_call(fn, r)
+        if hit is None:
+            return None
+        c, i = hit
+        meth = _self_method(c)
+        if meth is None or (meth, i) not in self.appliers:
+            return None
+        if c.keywords and any(k.arg is not None for k in c.keywords) and self.appliers[(meth, i)] != 'varargs':
+            return None
+        # what the enclosing wrapper passes on after the primitive: its own *args/**kwargs, or its own parameters in order
+        rest = ast.Call(func=c.func, args=c.args[:i] + c.args[i + 1:], keywords=c.keywords)
+        if self.appliers[(meth, i)] == 'varargs':
+            if U.forwards_varargs(fn, rest):
+                return 'varargs'
+            if U.forwards_params(fn, rest):
+                return 'params'
+        return ''
+
+    def _passed_to_unknown_method(self, m: Model, fn: U.FuncNode, r: Ref) -> bool:
+        hit = self._enclosing_call(fn, r)
+        return hit is not None and _self_method(hit[0]) in m.inst
 
     def wrappers(self) -> T.Dict[str, T.List[Site]]:
         out: T.Dict[str, T.List[Site]] = {}
@@ -128,6 +167,48 @@ class DryRunScan:
             if s.method not in bad:
                 out.setdefault(s.method, []).append(s)
         return out
+
+
+def _guarded_appliers(m: Model) -> T.Dict[T.Tuple[str, int], str]:
+    """(Installer method, positional index of a callable parameter) -> 'varargs' | '' for helpers of the form
+    `def _unless_dry_run(self, func, *args, **kwargs): if not self.dry_run: func(*args, **kwargs)`: the parameter is only ever
+    called, and every such call is unreachable when self.dry_run holds."""
+    out: T.Dict[T.Tuple[str, int], str] = {}
+    for name, fn in m.inst.items():
+        ps = U.params_of(fn)
+        for i, p_ in enumerate(ps):
+            uses = [n for n in walk_no_nested(fn) if isinstance(n, ast.Name) and n.id == p_ and isinstance(n.ctx, ast.Load)]
+            calls = [c for c in calls_in(fn) if isinstance(c.func, ast.Name) and c.func.id == p_]
+            if not calls or len(uses) != len(calls) or any(isinstance(n, ast.Name) and n.id == p_ and isinstance(n.ctx, ast.Store) for n in ast.walk(fn)):
+                continue
+            cfg = CFG(fn)
+            reach = U.feasible_reach(cfg, [cfg.entry], {'self.dry_run': True}, U.single_def_aliases(fn))
+            if any(n.id in reach for c in calls for n in cfg.node_containing(c)):
+                continue
+            va, kw = fn.args.vararg, fn.args.kwarg
+            shape = ''
+            if len(ps) == i + 1 and va is not None and all(
+                    len(c.args) == 1 and isinstance(c.args[0], ast.Starred) and norm(c.args[0].value) == va.arg
+                    and ((kw is None and not c.keywords) or (kw is not None and len(c.keywords) == 1 and c.keywords[0].arg is None and norm(c.keywords[0].value) == kw.arg))
+                    for c in calls):
+                shape = 'varargs'
+            out[(name, i)] = shape
+    return out
+
+
+def _predicate_facts(m: Model, facts_for: T.Callable[[T.List[str]], T.Dict[str, bool]], args: T.Sequence[str]) -> T.Dict[str, bool]:
+    """Facts about one-line predicate methods of Installer (`def _dry(self): return self.dry_run`,
+    `def _wanted(self, x): return self.should_install(x)`): the value of `self.<m>(<args>)` given the base facts."""
+    out: T.Dict[str, bool] = {}
+    for name, fn in m.inst.items():
+        body = [st for st in fn.body if not (isinstance(st, ast.Expr) and isinstance(st.value, ast.Constant))]
+        ps = U.params_of(fn)
+        if len(body) != 1 or not isinstance(body[0], ast.Return) or body[0].value is None or len(ps) != len(args):
+            continue
+        v = U.tv(body[0].value, facts_for(ps))
+        if v is not None:
+            out[f'self.{name}({", ".join(args)})'] = v
+    return out
 
 
 _MODELS: T.Dict[int, Model] = {}
@@ -579,6 +660,15 @@ def r2(ctx: RuleCtx) -> None:
         if len(rows) != 1:
             raise Undecided(f'get_destdir_path: {len(rows)} rows for path_has_root={val}')
         got = _returned(rows[0])
+        try:
+            ge = ast.parse(got, mode='eval').body
+        except SyntaxError:
+            ge = None
+        if val and isinstance(ge, ast.Call) and norm(ge.func) == 'destdir_join':
+            djs = Rooting(mod, g, {}).sig('destdir_join', ('d1', 'd2'))
+            b0, b1 = U.call_arg(ge, 0, djs[0]), U.call_arg(ge, 1, djs[1])
+            if b0 is not None and b1 is not None and len(ge.args) + len(ge.keywords) == 2:
+                got = f'destdir_join({norm(b0)}, {norm(b1)})'
         ctx.require(got == want, f'get_destdir_path: {"absolute" if val else "relative"} path -> {want}', mod, 'get_destdir_path',
                     rows[0].path.events[-1].node if rows[0].path.events else g,
                     f'for a{"n absolute" if val else " relative"} install path get_destdir_path yields `{got}`; it must be `{want}` '
@@ -805,7 +895,20 @@ PERM_PRIMS = {'minstall:set_mode', 'minstall:sanitize_permissions', 'minstall:se
 
 
 def _perm_wrappers(m: Model) -> T.Set[str]:
-    return {w for w, sites in m.dry.wrappers().items() if {s.ref.name for s in sites} <= PERM_PRIMS}
+    """Permission wrappers, and Installer helpers whose only effects are calls to them (`def _finish(self, p, mode, um): self.set_mode(p, mode, um)`)."""
+    perm = {w for w, sites in m.dry.wrappers().items() if {s.ref.name for s in sites} <= PERM_PRIMS}
+    eff = _effectful(m)
+    changed = True
+    while changed:
+        changed = False
+        for name, fn in m.inst.items():
+            if name in perm or name in m.dry.wrappers() or name not in eff:
+                continue
+            effs = [x for x in (_self_method(c) for c in calls_in(fn)) if x in eff]
+            if effs and all(x in perm for x in effs) and not any(_is_dirmaker_call(m, c) for c in calls_in(fn)):
+                perm.add(name)
+                changed = True
+    return perm
 
 
 class Loop(T.NamedTuple):
@@ -933,13 +1036,25 @@ def _filter_leaks(m: Model) -> T.Tuple[T.List[T.Tuple[Loop, Node, T.List[str]]],
         alias = U.single_def_aliases(lp.fn)
         en = _effect_nodes(m, cfg, eff)
         key = f'self.should_install({lp.var})'
-        rej = U.feasible_reach(cfg, [it], {key: False}, alias, avoid=[it], skip_labels={'done'})
-        acc = U.feasible_reach(cfg, [it], {key: True}, alias, avoid=[it], skip_labels={'done'})
+        f_rej, f_acc = {key: False}, {key: True}
+        f_rej.update(_predicate_facts(m, lambda ps: {f'self.should_install({ps[0]})': False}, [lp.var]))
+        f_acc.update(_predicate_facts(m, lambda ps: {f'self.should_install({ps[0]})': True}, [lp.var]))
+        rej = U.feasible_reach(cfg, [it], f_rej, alias, avoid=[it], skip_labels={'done'})
+        acc = U.feasible_reach(cfg, [it], f_acc, alias, avoid=[it], skip_labels={'done'})
         body_ids = {n.id for n in cfg.nodes if n.ast is not None and lp.loop.lineno <= getattr(n.ast, 'lineno', 0) <= (lp.loop.end_lineno or 0)}
         bad = [cfg.nodes[i] for i in sorted(rej & set(en) & body_ids)]
         n_acc = len(acc & set(en) & body_ids)
         if not n_acc:
             raise Undecided(f'Installer.{lp.method}: loop over {lp.coll} has no effect even for an accepted item')
+        if bad:
+            # a test of the item through some other Installer method the rule cannot summarise: not a proven leak
+            for n in cfg.nodes:
+                if n.kind == 'test' and n.id in body_ids:
+                    for x in walk_no_nested(n.ast.test):   # type: ignore[union-attr]
+                        sm = _self_method(x) if isinstance(x, ast.Call) else None
+                        if sm and sm != 'should_install' and sm in m.inst and f'self.{sm}({lp.var})' not in f_rej \
+                                and any(isinstance(a_, ast.Name) and a_.id == lp.var for a_ in x.args):
+                            raise Undecided(f'Installer.{lp.method}: items are filtered through self.{sm}({lp.var}), which the rule cannot summarise')
         for b in bad:
             leaks.append((lp, b, en[b.id]))
         if not bad:
@@ -1083,7 +1198,7 @@ def _r3b_perm_last(ctx: Ctx, m: Model) -> None:
             inner = max(encl, key=lambda l: l.lineno)
             it = _iter_node(cfg, inner)
             after = cfg.reachable([node], [it], edge_ok=lambda a, b, lab: lab != 'exc')
-            target = _perm_target(node, perm)
+            target = _perm_target(node, perm, m)
             late = [cfg.nodes[i] for i in sorted(after & set(en)) if _touches(cfg.nodes[i], target, eff, perm, m)]
             count += 1
             ctx.require(not late, f'Installer.{name}: {pcalls[0]}(...) is the last effect of its iteration', mod, f'Installer.{name}', node.expr() or fn,
@@ -1092,11 +1207,29 @@ def _r3b_perm_last(ctx: Ctx, m: Model) -> None:
     ctx.floor('permission calls inside per-kind loops', count, 7)
 
 
-def _perm_target(node: Node, perm: T.Set[str]) -> str:
+def _wrapper_arg(m: Model, call: ast.Call, index: int) -> T.Optional[ast.AST]:
+    """Argument of a `self.<wrapper>(...)` call that lands on parameter `index` of the wrapped primitive (positional or by keyword)."""
+    w = _self_method(call)
+    sites = m.dry.wrappers().get(w or '', [])
+    for st in sites:
+        nm = st.ref.name
+        if nm.startswith('minstall:') and nm.split(':', 1)[1] in m.top:
+            ps = U.params_of(m.top[nm.split(':', 1)[1]], drop_self=False)
+            if index < len(ps):
+                return U.call_arg(call, index, ps[index])
+        for pos, kw in U.MUTATORS.get(nm, []):
+            if pos == index:
+                return U.call_arg(call, index, kw)
+    return U.call_arg(call, index, ())
+
+
+def _perm_target(node: Node, perm: T.Set[str], m: T.Optional[Model] = None) -> str:
     e = node.expr()
     for x in walk_no_nested(e) if e is not None else []:
-        if isinstance(x, ast.Call) and _self_method(x) in perm and x.args:
-            return norm(x.args[0])
+        if isinstance(x, ast.Call) and _self_method(x) in perm:
+            a = _wrapper_arg(m, x, 0) if m is not None else U.call_arg(x, 0, 'path')
+            if a is not None:
+                return norm(a)
     raise Undecided(f'permission call without a path argument: {short(e)}')
 
 
@@ -1149,10 +1282,13 @@ def _r3c_core(ctx: Ctx, m: Model) -> None:
             if dest is None:
                 raise Undecided(f'Installer.{name}: do_copyfile without destination: {short(c)}')
             sites += 1
+            if _sets_mode_of(m, c, dest):
+                ctx.ok(f'Installer.{name}: the copy to `{norm(dest)}` sets the mode itself (do_copyfile hands its destination to set_mode)')
+                continue
             missing: T.Dict[str, T.List[str]] = {}
             npaths = 0
             for p in enumerate_paths(inner.body, unroll=1):
-                verdict = _copy_reaches_mode(p, c, dest)
+                verdict = _copy_reaches_mode(p, c, dest, m)
                 if verdict is None:
                     continue
                 npaths += 1
@@ -1178,11 +1314,33 @@ def _r3c_core(ctx: Ctx, m: Model) -> None:
     ctx.floor('do_copyfile call sites in per-kind loops', sites, 6)
 
 
+def _sets_mode_of(m: Model, call: ast.Call, dest: ast.AST, depth: int = 0) -> bool:
+    """`self.helper(..., dest, ...)` where the helper (an Installer method) passes that parameter to self.set_mode (may-summary)."""
+    meth = _self_method(call)
+    if meth is None or meth in m.dry.wrappers() or meth not in m.inst or depth > 1:
+        return False
+    fn = m.inst[meth]
+    try:
+        bound = U.bind_args(call, fn)
+    except Undecided:
+        return False
+    ps = [p_ for p_, a_ in bound.items() if norm(a_) == norm(dest)]
+    for p_ in ps:
+        for c in calls_in(fn):
+            if _self_method(c) == 'set_mode':
+                a0 = _wrapper_arg(m, c, 0)
+                if a0 is not None and norm(a0) == p_:
+                    return True
+            elif _sets_mode_of(m, c, ast.Name(id=p_, ctx=ast.Load()), depth + 1):
+                return True
+    return False
+
+
 def _contains(root: ast.AST, sub: ast.AST) -> bool:
     return any(x is sub for x in ast.walk(root))
 
 
-def _copy_reaches_mode(p: T.Any, c: ast.Call, dest: ast.AST) -> T.Optional[T.Tuple[str, str]]:
+def _copy_reaches_mode(p: T.Any, c: ast.Call, dest: ast.AST, m: Model) -> T.Optional[T.Tuple[str, str]]:
     """None: path does not perform the copy (or leaves exceptionally); (): reaches set_mode(dest); (escape, when): it does not."""
     evs = p.events
     idx = None
@@ -1212,10 +1370,14 @@ def _copy_reaches_mode(p: T.Any, c: ast.Call, dest: ast.AST) -> T.Optional[T.Tup
         if ev2.kind == 'stmt':
             for x in walk_no_nested(ev2.node):
                 if isinstance(x, ast.Call):
-                    if _self_method(x) == 'set_mode' and x.args and norm(x.args[0]) == norm(dest):
-                        return ()  # type: ignore[return-value]
+                    if _self_method(x) == 'set_mode':
+                        a0 = _wrapper_arg(m, x, 0)
+                        if a0 is not None and norm(a0) == norm(dest):
+                            return ()  # type: ignore[return-value]
                     if norm(x.func) == 'sys.exit':
                         return None
+                    if _sets_mode_of(m, x, dest):
+                        return ()  # type: ignore[return-value]
             if isinstance(ev2.node, (ast.Assign, ast.AugAssign, ast.AnnAssign)):
                 tg = ev2.node.targets if isinstance(ev2.node, ast.Assign) else [ev2.node.target]
                 names = {n.id for t in tg for n in ast.walk(t) if isinstance(n, ast.Name)}
@@ -1234,6 +1396,17 @@ def _copy_reaches_mode(p: T.Any, c: ast.Call, dest: ast.AST) -> T.Optional[T.Tup
 
 # =============================================================================================
 # R4 log <-> uninstall
+
+def _log_args(mod: Module, lc: ast.Call) -> T.Tuple[ast.AST, ast.AST]:
+    """(file, line) arguments of an append_to_log call, bound by the function's signature."""
+    ps = U.params_of(mod.func('append_to_log'), drop_self=False) if mod.has_func('append_to_log') else ['lf', 'line']
+    if len(ps) != 2:
+        raise Undecided('append_to_log: expected (file, line)')
+    a0, a1 = U.call_arg(lc, 0, ps[0]), U.call_arg(lc, 1, ps[1])
+    if a0 is None or a1 is None:
+        raise Undecided(f'append_to_log call shape: {short(lc)}')
+    return a0, a1
+
 
 def _log_calls(fn: U.FuncNode) -> T.List[ast.Call]:
     return [c for c in calls_in(fn) if isinstance(c.func, ast.Name) and c.func.id == 'append_to_log']
@@ -1271,12 +1444,22 @@ def _r4a_logged(ctx: Ctx, m: Model) -> None:
         dem = {p for p, k in ra.sums[f'Installer.{name}'].demands if k == 'rooted'} if f'Installer.{name}' in ra.sums else set()
         logs = []
         for lc in _log_calls(fn):
-            if len(lc.args) != 2 or lc.keywords:
-                raise Undecided(f'append_to_log call shape: {short(lc)}')
-            a = lc.args[1]
-            if isinstance(a, ast.Name) and a.id in dem and norm(lc.args[0]) == 'self.lf':
+            lfa, a = _log_args(mod, lc)
+            if isinstance(a, ast.Name) and a.id in dem and norm(lfa) == 'self.lf':
                 logs.append(lc)
         lognodes = [n for lc in logs for n in cfg.node_containing(lc)]
+        for c in calls_in(fn):
+            hm = _self_method(c)
+            if hm and hm in m.inst and hm not in wr and hm != name:
+                hfn = m.inst[hm]
+                try:
+                    hb = U.bind_args(c, hfn)
+                except Undecided:
+                    continue
+                for lc in _log_calls(hfn):
+                    lfa, a = _log_args(mod, lc)
+                    if isinstance(a, ast.Name) and a.id in hb and isinstance(hb[a.id], ast.Name) and hb[a.id].id in dem and norm(lfa) == 'self.lf':   # type: ignore[attr-defined]
+                        lognodes += cfg.node_containing(c)
         for c in ccalls:
             n_sites += 1
             nodes = U.node_of(cfg, c)
@@ -1299,13 +1482,18 @@ def _r4a_dirmaker(ctx: RuleCtx, m: Model) -> None:
         raise Undecided('DirMaker.makedirs: injected makedirs is not called exactly once')
     impl_call = [c for c in calls_in(mk) if attr_chain(c.func) == f'self.{impl.attr}'][0]
     ps = U.params_of(mk)
-    ctx.require(bool(impl_call.args) and norm(impl_call.args[0]) == ps[0], 'DirMaker.makedirs passes its own path to the injected makedirs', mod, 'DirMaker.makedirs', impl_call,
+    ctx.require(U.call_arg(impl_call, 0, ('name', 'path')) is not None and norm(U.call_arg(impl_call, 0, ('name', 'path'))) == ps[0], 'DirMaker.makedirs passes its own path to the injected makedirs', mod, 'DirMaker.makedirs', impl_call,
                 f'the injected makedirs is called with `{short(impl_call.args[0]) if impl_call.args else ""}` instead of the requested path `{ps[0]}`')
     rec_attr, local, rev_local = _dirmaker_record(mk, cfg, impl_nodes[0])
     whiles = [st for st in walk_no_nested(mk) if isinstance(st, ast.While)]
     if len(whiles) != 1:
         raise Undecided('DirMaker.makedirs: expected one upward walk')
-    tab = tables.extract(mk, body=whiles[0].body, effects=_assign_eff, inline=False, name='DirMaker.makedirs:walk')
+    # one iteration of the walk as a decision: `while T: B`  ==  `if T: B else: break` (a test folded into the loop condition and
+    # an `if ...: break` at the top of the body are the same rows)
+    one_iter = ast.If(test=whiles[0].test, body=whiles[0].body, orelse=[ast.Break()])
+    ast.copy_location(one_iter, whiles[0])
+    ast.fix_missing_locations(one_iter)
+    tab = tables.extract(mk, body=[one_iter], effects=_assign_eff, inline=False, name='DirMaker.makedirs:walk')
     # the walker is the variable the two tests of the walk are about: `<w> in self.<recorded>` and `os.path.exists(<w>)`
     seen_c = [a for a in tab.atoms() if a.kind == 'in' and a.args[1] == f'self.{rec_attr}']
     if len(seen_c) != 1:
@@ -1315,10 +1503,20 @@ def _r4a_dirmaker(ctx: RuleCtx, m: Model) -> None:
     if not walker.isidentifier():
         raise Undecided(f'DirMaker.makedirs walk: walked value `{walker}` is not a local')
     ex_atom, seen_atom = ex_c[0], seen_c[0]
-    unknown = [a for a in tab.atoms() if a not in (ex_atom, seen_atom)]
-    if unknown:
-        raise Undecided(f'DirMaker.makedirs walk: unknown atoms {unknown}')
     fl_mk = Flow(mk, nested=False)
+
+    def _is_parent_of_walker(text: str) -> bool:
+        if text == f'os.path.dirname({walker})':
+            return True
+        binds = [norm(b) for b in fl_mk.defs.get(text, [])] if text.isidentifier() else []
+        return bool(binds) and all(b == f'os.path.dirname({walker})' for b in binds)
+    # "the walk reached the file-system root": walker == dirname(walker), in either operand order / through a parent local
+    root_atoms = [a for a in tab.atoms() if a.kind == 'cmp' and a.args[0] == 'eq'
+                  and ((a.args[1] == walker and _is_parent_of_walker(a.args[2])) or (a.args[2] == walker and _is_parent_of_walker(a.args[1])))]
+    unknown = [a for a in tab.atoms() if a not in (ex_atom, seen_atom) and a not in root_atoms]
+    if unknown or len(root_atoms) != 1:
+        raise Undecided(f'DirMaker.makedirs walk: unknown atoms {unknown or tab.atoms()}')
+    root_atom = root_atoms[0]
 
     def _steps_up(effects: T.Sequence[str]) -> bool:
         """The row moves the walker to its parent: `w := os.path.dirname(w)`, or `w := p` where every binding of p is
@@ -1340,6 +1538,11 @@ def _r4a_dirmaker(ctx: RuleCtx, m: Model) -> None:
         if len(rows) != 1:
             raise Undecided(f'DirMaker.makedirs walk: {len(rows)} rows in {w}')
         r = rows[0]
+        if w[root_atom]:
+            # at the root the walk ends without recording anything (one obligation for all worlds of the other atoms)
+            if r.outcome != ('break',) or any(e.startswith(f'call {local}.') for e in r.effects):
+                ctx.violation(mod, 'DirMaker.makedirs', 'walk at the file-system root', 'the walk does not stop (or records something) when it has reached the root', mk)
+            continue
         recorded = f'call {local}.append({walker})' in r.effects
         stepped = _steps_up(r.effects)
         if w[seen_atom]:
@@ -1433,7 +1636,8 @@ def _dirmaker_emit(ex: U.FuncNode, attr: str) -> T.Tuple[int, bool]:
             r, base = _reversals(n.iter)
             if norm(base) == f'self.{attr}':
                 for c in calls_in(n):
-                    if isinstance(c.func, ast.Name) and c.func.id == 'append_to_log' and len(c.args) == 2 and norm(c.args[1]) == n.target.id and norm(c.args[0]).startswith('self.'):
+                    if isinstance(c.func, ast.Name) and c.func.id == 'append_to_log' and U.call_arg(c, 1, 'line') is not None and norm(U.call_arg(c, 1, 'line')) == n.target.id \
+                            and U.call_arg(c, 0, 'lf') is not None and norm(U.call_arg(c, 0, 'lf')).startswith('self.'):
                         emitted = True
                         rev += r
     return rev, emitted
@@ -1516,26 +1720,53 @@ def r4b(ctx: RuleCtx) -> None:
             raise Undecided('do_uninstall: the loop over the lines of the log was not found')
     loop = loops[0]
     line = loop.target.id   # type: ignore[union-attr]
-    refs = [r for r in U.effect_refs(um, du) if r.cls == 'fs']
     removers = {'os.rmdir', 'os.unlink', 'os.remove'}
-    ctx.floor('removal calls in do_uninstall', len(refs), 2)
     fl = Flow(du, nested=False)
+    # the removal site: the loop body itself, or a module-level helper the loop hands the decoded name to
+    site_fn, site_q, site_body = du, 'do_uninstall', loop.body
+    refs = [r for r in U.effect_refs(um, du) if r.cls == 'fs']
+    handoff: T.Optional[T.Tuple[ast.Call, U.FuncNode, T.Dict[str, ast.AST]]] = None
+    if not refs:
+        cands = []
+        for c in calls_in(loop):
+            if isinstance(c.func, ast.Name) and um.has_func(c.func.id) and '.' not in c.func.id:
+                h = um.func(c.func.id)
+                hr = [r for r in U.effect_refs(um, h) if r.cls == 'fs']
+                if hr:
+                    cands.append((c, h, hr))
+        if len(cands) != 1:
+            raise Undecided(f'do_uninstall: no removal call in the loop and {len(cands)} helper(s) that remove')
+        c0, site_fn, refs = cands[0]
+        site_q, site_body = site_fn.name, site_fn.body
+        handoff = (c0, site_fn, U.bind_args(c0, site_fn, drop_self=False))
+    ctx.floor('removal calls of uninstall', len(refs), 2)
     decoded: T.Dict[str, ast.AST] = {}
+    site_names: T.Set[str] = set()
     for r in refs:
-        ok = r.name in removers and r.call is not None and len(r.call.args) == 1 and isinstance(r.call.args[0], ast.Name) \
-            and loop.lineno <= r.call.lineno <= (loop.end_lineno or 0)
-        if ok:
-            name = r.call.args[0].id   # type: ignore[union-attr]
-            defs = [d_ for d_ in fl.defs.get(name, []) if d_ is not loop.iter]
+        tgt = U.call_arg(r.call, 0, ('path', 'name')) if r.call is not None else None
+        single = r.name in removers and r.call is not None and len(r.call.args) + len(r.call.keywords) == 1 and tgt is not None
+        inside = handoff is not None or (r.call is not None and loop.lineno <= r.call.lineno <= (loop.end_lineno or 0))
+        if single and inside and not isinstance(tgt, ast.Name):
+            raise Undecided(f'{site_q}: removal target `{short(tgt)}` is not a plain name')
+        if single and inside:
+            nm = tgt.id   # type: ignore[union-attr]
+            site_names.add(nm)
+            if handoff is not None:
+                c0, h, bound = handoff
+                if nm not in bound or Flow(h, nested=False).defs.get(nm) or not isinstance(bound[nm], ast.Name):
+                    raise Undecided(f'{site_q}: removal target `{nm}` is not a parameter that receives the decoded line unchanged')
+                nm = bound[nm].id   # type: ignore[attr-defined]
+            defs = [d_ for d_ in fl.defs.get(nm, []) if d_ is not loop.iter]
             if len(defs) != 1:
-                raise Undecided(f'do_uninstall: `{name}` has {len(defs)} bindings; the decoding of a log line is not a single expression')
-            decoded[name] = defs[0]
-        ctx.require(ok, f'do_uninstall: {r.name}(<decoded log line>) is a single-entry removal', um, 'do_uninstall', r.call or r.node,
-                    f'do_uninstall uses `{r.name}` on `{short(r.call.args[0]) if r.call is not None and r.call.args else "?"}`: uninstall must remove exactly the logged entries '
+                raise Undecided(f'do_uninstall: `{nm}` has {len(defs)} bindings; the decoding of a log line is not a single expression')
+            decoded[nm] = defs[0]
+        ctx.require(single and inside, f'{site_q}: {r.name}(<decoded log line>) is a single-entry removal', um, site_q, r.call or r.node,
+                    f'{site_q} uses `{r.name}` on `{short(tgt) if tgt is not None else "?"}`: uninstall must remove exactly the logged entries '
                     f'(only rmdir/unlink of the decoded line; anything recursive or on another path removes what install did not create)', r.node)
-    if len(decoded) != 1:
+    if len(decoded) != 1 or len(site_names) != 1:
         raise Undecided(f'do_uninstall: removal targets {sorted(decoded)} are not one decoded name')
     name, expr = next(iter(decoded.items()))
+    sname = next(iter(site_names))
     construct = f'{name} = {norm(expr)}'
     kind, detail = _decode_verdict(expr, line, term)
     if kind == 'keeps':
@@ -1547,39 +1778,55 @@ def r4b(ctx: RuleCtx) -> None:
     else:
         ctx.ok(f'reader decodes a record with `{norm(expr)}`: removes exactly the writer\'s terminator {term!r} and nothing else')
 
-    # removal kind: directories (not links to them) -> rmdir, everything else -> unlink
-    tab2 = tables.extract(du, body=loop.body, effects=_assign_eff, inline=False, name='do_uninstall:loop', handlers=False)
-    isdir, islink = Atom('truth', (f'os.path.isdir({name})',)), Atom('truth', (f'os.path.islink({name})',))
-    comment_atoms = [a for a in tab2.atoms() if a.kind == 'truth' and a.args[0].startswith(f'{line}.startswith(')]
-    # "the decoded name is empty" in any spelling: `not name`, `name == ''`, `len(name) == 0`
-    nonempty: T.Dict[Atom, bool] = {}      # atom -> its value when the name is non-empty
-    for a in tab2.atoms():
-        if a.kind == 'truth' and a.args[0] == name:
-            nonempty[a] = True
-        elif a.kind == 'cmp' and a.args[0] == 'eq' and ((a.args[1], a.args[2]) in ((name, "''"), (f'len({name})', '0'))):
-            nonempty[a] = False
-    other = [a for a in tab2.atoms() if a not in (isdir, islink) and a not in comment_atoms and a not in nonempty]
-    if other or len(comment_atoms) != 1:
-        raise Undecided(f'do_uninstall loop: atoms not understood: {other or comment_atoms}')
+    # the loop: comment lines (and empty records) are skipped before anything is removed
+    tab_du = tables.extract(du, body=loop.body, effects=_assign_eff, inline=False, name='do_uninstall:loop', handlers=False)
+    comment_atoms = [a for a in tab_du.atoms() if a.kind == 'truth' and a.args[0].startswith(f'{line}.startswith(')]
+    if len(comment_atoms) != 1:
+        raise Undecided(f'do_uninstall loop: comment test not found among {tab_du.atoms()}')
     cpre = ast.parse(comment_atoms[0].args[0], mode='eval').body.args[0]   # type: ignore[attr-defined]
     if not (isinstance(cpre, ast.Constant) and isinstance(cpre.value, str) and cpre.value):
         raise Undecided('do_uninstall: comment prefix is not a constant')
     cpre_s = cpre.value
+    helper_name = handoff[1].name if handoff is not None else None
+    for r_ in tab_du.rows:
+        if r_.conds.get(comment_atoms[0]) is True:
+            acts = [e for e in r_.effects if e.startswith('call os.') or (helper_name and f'{helper_name}(' in e)]
+            tests = [a for a in r_.conds if helper_name and f'{helper_name}(' in repr(a)]
+            if r_.outcome != ('continue',) or acts or tests:
+                ctx.violation(um, 'do_uninstall', f'comment line {cpre_s!r}', 'a comment line of the log is not skipped before the removal', loop)
+                break
+    else:
+        ctx.ok(f'do_uninstall: lines starting with {cpre_s!r} are skipped before anything is removed')
+
+    # removal kind: directories (not links to them) -> rmdir, everything else -> unlink
+    tab2 = tab_du if handoff is None else tables.extract(site_fn, body=site_body, effects=_assign_eff, inline=False, name=f'{site_q}:removal', handlers=False)
+    if handoff is not None:
+        hps = U.params_of(site_fn, drop_self=False)
+        sname = f'ARG{hps.index(sname) + 1}'      # tables rename parameters by position
+    isdir, islink = Atom('truth', (f'os.path.isdir({sname})',)), Atom('truth', (f'os.path.islink({sname})',))
+    # "the decoded name is empty" in any spelling: `not name`, `name == ''`, `len(name) == 0`
+    nonempty: T.Dict[Atom, bool] = {}      # atom -> its value when the name is non-empty
+    for a in tab2.atoms():
+        if a.kind == 'truth' and a.args[0] == sname:
+            nonempty[a] = True
+        elif a.kind == 'cmp' and a.args[0] == 'eq' and ((a.args[1], a.args[2]) in ((sname, "''"), (f'len({sname})', '0'))):
+            nonempty[a] = False
+    skip = comment_atoms if handoff is None else []
+    other = [a for a in tab2.atoms() if a not in (isdir, islink) and a not in skip and a not in nonempty]
+    if other:
+        raise Undecided(f'{site_q}: atoms not understood: {other}')
     for wv in tab2.worlds([isdir, islink]):
-        rows = tab2.fire(wv)
-        if wv.get(comment_atoms[0]):
-            ok = len(rows) == 1 and rows[0].outcome == ('continue',) and not any('os.' in e and e.startswith('call os.') and ('rmdir' in e or 'unlink' in e or 'remove' in e) for e in rows[0].effects)
-            if not ok:
-                ctx.violation(um, 'do_uninstall', f'comment line {cpre_s!r}', 'a comment line of the log is not skipped', loop)
+        if any(wv.get(a) for a in skip):
             continue
         if any(wv.get(a) != val for a, val in nonempty.items()):
             continue   # an empty record (tolerated by the reader): nothing to remove
+        rows = tab2.fire(wv)
         if len(rows) != 1:
-            raise Undecided(f'do_uninstall loop: {len(rows)} rows in {wv}')
+            raise Undecided(f'{site_q}: {len(rows)} rows in {wv}')
         calls = [e[len('call '):].split('(')[0] for e in rows[0].effects if e.startswith('call os.')]
         want = ['os.rmdir'] if (wv[isdir] and not wv[islink]) else ['os.unlink']
         got = ['os.unlink' if c == 'os.remove' else c for c in calls]
-        ctx.require(got == want, f'do_uninstall: isdir={wv[isdir]} islink={wv[islink]} -> {want[0]}', um, 'do_uninstall',
+        ctx.require(got == want, f'{site_q}: isdir={wv[isdir]} islink={wv[islink]} -> {want[0]}', um, site_q,
                     rows[0].path.events[-1].node if rows[0].path.events else loop,
                     f'for an entry with isdir={wv[isdir]}, islink={wv[islink]} uninstall calls {got}; expected {want} (a symlink to a directory must be unlinked, a directory rmdir\'ed)')
 
@@ -1587,9 +1834,7 @@ def r4b(ctx: RuleCtx) -> None:
     nconst = 0
     for q, fn in mod.funcs().items():
         for c in _log_calls(fn):
-            if len(c.args) != 2:
-                continue
-            a = c.args[1]
+            a = _log_args(mod, c)[1]
             head = None
             if isinstance(a, ast.Constant) and isinstance(a.value, str):
                 head = a.value
@@ -1674,11 +1919,17 @@ def _r5_bits(ctx: Ctx, mod: Module) -> None:
             raise Undecided(f'sanitize_permissions: chmod calls {chm}')
         call = ast.parse(chm[0][len('call '):], mode='eval').body
         assert isinstance(call, ast.Call)
-        fs = kwarg(call, 'follow_symlinks')
-        if not (len(call.args) >= 2 and norm(call.args[0]) == 'ARG1' and fs is not None and norm(fs) == 'False'):
+        chps = U.params_of(mod.func('set_chmod'), drop_self=False)
+        if len(chps) < 2 or 'follow_symlinks' not in chps + [a_.arg for a_ in mod.func('set_chmod').args.kwonlyargs]:
+            raise Undecided('set_chmod: signature is not (path, mode, ..., follow_symlinks)')
+        fs = U.call_arg(call, chps.index('follow_symlinks') if 'follow_symlinks' in chps else 99, 'follow_symlinks')
+        c_path, c_mode = U.call_arg(call, 0, chps[0]), U.call_arg(call, 1, chps[1])
+        if c_mode is None:
+            raise Undecided(f'sanitize_permissions: chmod call shape {short(call)}')
+        if not (c_path is not None and norm(c_path) == 'ARG1' and fs is not None and norm(fs) == 'False'):
             ctx.violation(mod, 'sanitize_permissions', call, f'sanitize_permissions calls `{short(call)}`: it must chmod the given path with follow_symlinks=False', sp)
             return
-        expr = U.compose_assignments(r.effects, call.args[1])
+        expr = U.compose_assignments(r.effects, c_mode)
         where = r.path.events[-1].node if r.path.events else sp
         pa = [(a_, v_) for a_, v_ in r.conds.items() if a_ in probe_atoms]
         if pa:
@@ -1850,14 +2101,14 @@ def r5(ctx: RuleCtx) -> None:
             rows = [r for r in rows if not v['mode_none'] or all(a == mode_none for a in r.conds)]
             if len(rows) != 1:
                 raise Undecided(f'set_mode: {len(rows)} rows fire for {v}')
-        got = [e[len('call '):] for e in rows[0].effects if e.startswith('call ')]
+        got = [_bound_call(mod, e[len('call '):]) for e in rows[0].effects if e.startswith('call ')]
         if v['mode_none'] or (v['perms_none'] and v['owner_none'] and v['group_none']):
-            want = ['sanitize_permissions(ARG1, ARG3)']
+            want = [_bound_call(mod, 'sanitize_permissions(ARG1, ARG3)')]
         else:
             want = []
             if not v['windows'] and not (v['owner_none'] and v['group_none']):
-                want.append('set_chown(ARG1, ARG2.owner, ARG2.group, follow_symlinks=False)')
-            want.append('sanitize_permissions(ARG1, ARG3)' if v['perms_none'] else 'set_chmod(ARG1, ARG2.perms, follow_symlinks=False)')
+                want.append(_bound_call(mod, 'set_chown(ARG1, ARG2.owner, ARG2.group, follow_symlinks=False)'))
+            want.append(_bound_call(mod, 'sanitize_permissions(ARG1, ARG3)' if v['perms_none'] else 'set_chmod(ARG1, ARG2.perms, follow_symlinks=False)'))
         if got != want:
             bad.setdefault(repr(rows[0]), f'row `{short(repr(rows[0]), 160)}` performs {got}; the reference (no mode -> default permissions masked by the umask; owner/group before the '
                                           f'permission bits, never on Windows; explicit perms -> chmod(perms) else sanitise) requires {want} for {v}')
@@ -1868,37 +2119,47 @@ def r5(ctx: RuleCtx) -> None:
 
     _r5_bits(ctx, mod)
 
-    # ---- call sites: the item's install_mode and the install umask ----
+    # ---- call sites: the item's install_mode and the install umask (a value that arrives through a parameter of an Installer
+    # helper is judged at the helper's call sites) ----
     nsites = 0
+
+    def sources(meth: str, e: ast.AST, depth: int = 0) -> T.List[T.Tuple[str, ast.AST, ast.Call]]:
+        fnm = m.inst[meth]
+        if isinstance(e, ast.Name) and e.id in U.params_of(fnm) and not Flow(fnm, nested=False).defs.get(e.id) and depth < 3:
+            out: T.List[T.Tuple[str, ast.AST, ast.Call]] = []
+            for q2, f3 in m.inst.items():
+                for c2 in calls_in(f3):
+                    if _self_method(c2) == meth:
+                        a_ = U.bind_args(c2, fnm).get(e.id)
+                        if a_ is not None:
+                            out += sources(q2, a_, depth + 1)
+            if out:
+                return out
+        return [(meth, e, None)]   # type: ignore[list-item]
     for name, fn2 in m.inst.items():
         if name in m.dry.wrappers():
             continue
-        d = _install_data_param(fn2)
         for c in calls_in(fn2):
             if _self_method(c) != 'set_mode':
                 continue
             nsites += 1
-            if len(c.args) != 3 or c.keywords:
+            a_mode, a_umask = _wrapper_arg(m, c, 1), _wrapper_arg(m, c, 2)
+            if a_mode is None or a_umask is None:
                 raise Undecided(f'Installer.{name}: set_mode call shape {short(c)}')
-            um_ok = d is not None and norm(c.args[2]) == f'{d}.install_umask'
-            ctx.require(um_ok, f'Installer.{name}: set_mode(..., {norm(c.args[2])}) uses the install umask of the InstallData', mod, f'Installer.{name}', c,
-                        f'set_mode is given `{short(c.args[2])}` as default umask instead of {d}.install_umask: default permissions are not masked by install_umask', c)
-            org = Flow(fn2, nested=False).origins(c.args[1])
-            via_param = [o[len('param:'):] for o in org if o.startswith('param:') and 'mode' in o]
-            mode_ok = any(o.startswith('attr:') and o.endswith('.install_mode') for o in org) or bool(via_param)
-            ctx.require(mode_ok and 'const' not in org, f'Installer.{name}: set_mode(_, {norm(c.args[1])}, _) passes the item\'s declared install_mode', mod, f'Installer.{name}', c,
-                        f'the mode handed to set_mode (`{short(c.args[1])}`, origins {sorted(org)}) is not the install_mode of the item being installed', c)
-            for p in via_param:
-                for q2, f3 in m.inst.items():
-                    for c2 in calls_in(f3):
-                        if _self_method(c2) == name:
-                            a = U.bind_args(c2, fn2).get(p)
-                            if a is None:
-                                continue
-                            o2 = Flow(f3, nested=False).origins(a)
-                            ctx.require(any(o.startswith('attr:') and o.endswith('.install_mode') for o in o2) and 'const' not in o2,
-                                        f'Installer.{q2}: {name}({p}={norm(a)}) is the item\'s install_mode', mod, f'Installer.{q2}', c2,
-                                        f'`{short(a)}` passed as {p} of {name} is not the install_mode of the item (origins {sorted(o2)})', c2)
+            for q2, e2, _ in sources(name, a_umask):
+                d = _install_data_param(m.inst[q2])
+                ok_u = d is not None and norm(e2) == f'{d}.install_umask'
+                if not ok_u and isinstance(e2, ast.Name) and e2.id in U.params_of(m.inst[q2]):
+                    raise Undecided(f'Installer.{q2}: the umask for set_mode arrives through parameter `{e2.id}` of a method that is not called inside the class')
+                ctx.require(ok_u, f'Installer.{q2}: set_mode(..., {norm(e2)}) uses the install umask of the InstallData', mod, f'Installer.{q2}', c if q2 == name else e2,
+                            f'set_mode is given `{short(e2)}` as default umask instead of {d}.install_umask: default permissions are not masked by install_umask', c)
+            for q2, e2, _ in sources(name, a_mode):
+                org = Flow(m.inst[q2], nested=False).origins(e2)
+                if isinstance(e2, ast.Name) and e2.id in U.params_of(m.inst[q2]) and not any(o.startswith('attr:') for o in org):
+                    raise Undecided(f'Installer.{q2}: the mode for set_mode arrives through parameter `{e2.id}` of a method that is not called inside the class')
+                ctx.require(any(o.startswith('attr:') and o.endswith('.install_mode') for o in org) and 'const' not in org,
+                            f'Installer.{q2}: set_mode(_, {norm(e2)}, _) passes the item\'s declared install_mode', mod, f'Installer.{q2}', c if q2 == name else e2,
+                            f'the mode handed to set_mode (`{short(e2)}`, origins {sorted(org)}) is not the install_mode of the item being installed', c)
     ctx.floor('set_mode call sites', nsites, 6)
     # the process umask is the install umask unless 'preserve'
     do = mod.func('Installer.do_install')
@@ -1923,6 +2184,17 @@ def r5(ctx: RuleCtx) -> None:
     early = [cfg.nodes[i] for i in sorted(r_int & set(en))]
     ctx.require(not early, 'do_install: with an integer install_umask os.umask(install_umask) precedes every installer', mod, 'Installer.do_install', ucall,
                 f'{", ".join(en[early[0].id]) if early else ""} can run before os.umask({arg}): new directories would be created with the caller\'s umask', ucall)
+
+
+def _bound_call(mod: Module, text: str) -> str:
+    """A call to a module-level function of minstall.py with every argument bound to its parameter (keyword or positional alike)."""
+    try:
+        e = ast.parse(text, mode='eval').body
+    except SyntaxError:
+        return text
+    if isinstance(e, ast.Call) and isinstance(e.func, ast.Name) and mod.has_func(e.func.id):
+        return U.canon_call(e, mod.func(e.func.id), drop_self=False)
+    return norm(e)
 
 
 def _all_none_fields(a: Atom) -> T.Optional[T.List[str]]:
@@ -2192,14 +2464,14 @@ def _symlink_sites(m: Model) -> T.List[LinkSite]:
         for c in calls_in(fn):
             if _self_method(c) not in linkers:
                 continue
-            if len(c.args) < 2:
+            d = U.call_arg(c, 1, 'dst')
+            if d is None:
                 raise Undecided(f'Installer.{name}: symlink call shape {short(c)}')
-            d = c.args[1]
             if not (isinstance(d, ast.Name) and d.id in U.params_of(fn) and not Flow(fn, nested=False).defs.get(d.id)):
                 raise Undecided(f'Installer.{name}: symlink destination `{short(d)}` is not an unmodified parameter')
             dest = d.id
             cfg = CFG(fn)
-            rem = [n for n in cfg.nodes_with_call(lambda x: _self_method(x) in removers and len(x.args) == 1 and norm(x.args[0]) == dest)]
+            rem = [n for n in cfg.nodes_with_call(lambda x: _self_method(x) in removers and U.call_arg(x, 0, 'path') is not None and norm(U.call_arg(x, 0, 'path')) == dest)]
             probes: T.Dict[str, str] = {}
             for x in calls_in(fn):
                 dn = U.dotted(mod, x.func)
@@ -2242,8 +2514,8 @@ def r6(ctx: RuleCtx) -> None:
         if name in wr or any(s.method == name for s in sites):
             continue
         for c in calls_in(fn):
-            if _self_method(c) in removers and len(c.args) == 1:
-                d = norm(c.args[0])
+            if _self_method(c) in removers and U.call_arg(c, 0, 'path') is not None:
+                d = norm(U.call_arg(c, 0, 'path'))
                 used = sorted({U.dotted(mod, x.func).rsplit('.', 1)[1] for x in calls_in(fn)   # type: ignore[union-attr]
                                if U.dotted(mod, x.func) in PROBES_FOLLOW | PROBES_NOFOLLOW and len(x.args) == 1 and norm(x.args[0]) == d})
                 ctx.note(f'not decided: Installer.{name} removes `{d}` before re-creating it under probes {used} '
